@@ -910,6 +910,23 @@ def check_iteration(scfg: SCFG, flat: Flat | None = None):
             raise Viol("I-obj", f"iteration yields a different object for {k}")
     if names and names[0] != top_head(scfg):
         raise Viol("I-head", f"iteration starts at {names[0]}, head is {top_head(scfg)}")
+    # enumerating is repeatable (no state is consumed) and agrees with the container protocol of the graph
+    try:
+        again = [k for k, _ in scfg]
+    except Exception as e:  # noqa
+        raise Viol("I-raise", f"second iteration raised {type(e).__name__}: {e}")
+    if again != names:
+        raise Viol("I-again", "iterating the same graph a second time yields a different sequence")
+    try:
+        if len(scfg) != len(scfg.graph):
+            raise Viol("I-map", f"len(graph) = {len(scfg)}, it holds {len(scfg.graph)} top-level items")
+        for k, b in scfg.graph.items():
+            if k not in scfg or scfg[k] is not b:
+                raise Viol("I-map", f"graph[{k!r}] / {k!r} in graph disagree with the graph's own items")
+    except Viol:
+        raise
+    except Exception as e:  # noqa
+        raise Viol("I-map", f"container protocol of the graph raised {type(e).__name__}: {e}")
     # every sub-graph is a graph too: iterating it yields its own hierarchy
     for rname, r in flat.regions.items():
         try:
@@ -953,5 +970,21 @@ def check_view(g: SCFG, label: str):
     for k in names[1:]:
         if not any(pos[p] < pos[k] for p in preds[k]):
             raise Viol("I-view-order", f"level {label}: {k} is yielded before all of its predecessors")
+    # the view is a Mapping over the same items, and enumerating it is repeatable
+    try:
+        view = g.concealed_region_view
+        if list(view) != names:
+            raise Viol("I-view-again", f"level {label}: enumerating the view a second time yields a different sequence")
+        if len(view) != len(names):
+            raise Viol("I-view-map", f"level {label}: len(view) = {len(view)}, it yields {len(names)} items")
+        for k in names:
+            if k not in view or view[k] is not g.graph[k]:
+                raise Viol("I-view-map", f"level {label}: view[{k!r}] is not the graph's item {k!r}")
+        if [k for k, _ in view.items()] != names:
+            raise Viol("I-view-map", f"level {label}: view.items() enumerates differently from the view")
+    except Viol:
+        raise
+    except Exception as e:  # noqa
+        raise Viol("I-view-map", f"level {label}: Mapping protocol of the view raised {type(e).__name__}: {e}")
     follows = any(isinstance(b, RegionBlock) and any(t in g.graph for t in b.jump_targets) for b in g.graph.values())
     return follows
